@@ -263,6 +263,10 @@ func (p *ParagraphReader) Next() (*Paragraph, error) {
 		lastKey = strings.TrimSpace(els[0])
 		value := strings.TrimSpace(els[1])
 
+		if _, found := paragraph.Values[lastKey]; found {
+			return nil, fmt.Errorf("Bad line: field '%s' appears twice in one paragraph", lastKey)
+		}
+
 		paragraph.Order = append(paragraph.Order, lastKey)
 		paragraph.Values[lastKey] = value
 	}
